@@ -456,6 +456,7 @@ class Frame:
     env: dict
     base: int  # index into the guard stack at function entry
     returns: list = field(default_factory=list)  # (relative guard, value)
+    breaks: list = field(default_factory=list)  # relative guards of the break statements met
     yields: "Coll | None" = None
     selfv: "V | None" = None
 
@@ -702,6 +703,7 @@ class Interp:
         if isinstance(s, (ast.Continue, ast.Break)):
             if isinstance(s, ast.Break) and self.loops:
                 self.loops[-1].broken = True
+                fr.breaks.append(self.rel_guard(fr))
             return FALSE
         if isinstance(s, ast.Raise):
             return FALSE
@@ -942,10 +944,11 @@ class Interp:
 
     def exec_for(self, fr: Frame, s: ast.For) -> Formula:
         src = self.ev(fr, s.iter)
-        exits: list[Formula] = []
+        exits: list[Formula] = []  # per run: no return / no break happened in it (later runs and the code after run under these)
+        broke: list[Formula] = []
         pushed = 0
         for value, g, lp, ckey in self.iteration_plan(fr, src, s):
-            before = len(fr.returns)
+            before, before_b = len(fr.returns), len(fr.breaks)
             self.frames.append(g)
             saved = self.loops
             if lp is not None:
@@ -975,21 +978,28 @@ class Interp:
                     rg = self.exists(rg, ckey)
                 fr.returns[i] = (rg, rv)
                 run_exits.append(rg)
-            if run_exits:
-                # the relative guard of a return contains the frames of this function below the loop as well: harmless duplicates
-                ex = f_not(disj(run_exits))
-                exits.append(ex)
+            run_breaks = [self.exists(bg, ckey) if ckey is not None else bg for bg in fr.breaks[before_b:]]
+            del fr.breaks[before_b:]
+            broke += run_breaks
+            if run_exits or run_breaks:
+                # (the relative guards contain the frames of this function below the loop as well: harmless duplicates)
+                ex = f_not(disj([*run_exits, *run_breaks]))
                 self.frames.append(ex)
                 pushed += 1
+            if run_exits:
+                exits.append(f_not(disj(run_exits)))
         for _ in range(pushed):
             self.frames.pop()
         cont = conj(exits)
         if s.orelse:
-            self.frames.append(cont)
+            # the else block runs when the loop was not left by break; after a break control continues behind it
+            no_break = f_not(disj(broke))
+            self.frames.append(conj([cont, no_break]))
             try:
-                cont = conj([cont, self.exec_block(fr, s.orelse)])
+                ft_else = self.exec_block(fr, s.orelse)
             finally:
                 self.frames.pop()
+            cont = conj([cont, disj([disj(broke), conj([no_break, ft_else])])])
         return cont
 
     def _flags_before(self, fr: Frame, body: list) -> dict:
